@@ -2,8 +2,9 @@ import EchVerif.Lemmas.DNS
 /-
   C13 — the DNS codec round-trips and agrees with an independent RFC 1035/9460 codec.
   Proved here: the name codec round trip (the part everything else rests on), the header round trip,
-  the padding length law and the extended-RCODE law. The whole-message round trip for every record
-  type and the agreement with golang.org/x/net/dns/dnsmessage are carried by the correspondence
+  the whole-message round trip for messages made of questions and A / AAAA / NS / CNAME / PTR / OPT
+  records, the padding length law and the extended-RCODE law. The round trip of HTTPS / SVCB RDATA
+  and the agreement with golang.org/x/net/dns/dnsmessage are carried by the correspondence
   campaign (exhaustive over headers and question-name lengths) — see DESIGN.md ("partial").
 -/
 open Wire
@@ -257,5 +258,309 @@ theorem C13_padding (m m' : EMessage) (b' : Bytes) (h : addPadding m = some m') 
         · simp at hb
     all_goals simp at h
   · simp at h
+
+/-! ### whole-message round trip (questions; A / AAAA / NS / CNAME / PTR / OPT records) -/
+
+/-- the labels the encoder writes for a Go string: none for "", else split on dots -/
+def toName (s : Bytes) : Name := if s = [] then [] else splitDots s
+
+/-- the name survives the wire: labels of 1..63 octets, at most 255 octets in all -/
+def NameOk (s : Bytes) : Prop := LabelsOk (toName s) ∧ octets (toName s) ≤ 255
+
+theorem encNameStr_toName (s : Bytes) : encNameStr s = (encLabels (toName s)).map (· ++ [0]) := by
+  unfold encNameStr toName
+  split <;> simp [encLabels]
+
+theorem wU16_u16 (pos v : Nat) (rest : Bytes) (h : v < 65536) :
+    wU16 ⟨pos, u16 v ++ rest⟩ = some (v, ⟨pos + 2, rest⟩) := by
+  simp only [wU16, readU16_u16 h, Option.map_some, Win.adv]
+  simp [u16]; omega
+
+theorem wU32_u32 (pos v : Nat) (rest : Bytes) (h : v < 4294967296) :
+    wU32 ⟨pos, u32 v ++ rest⟩ = some (v, ⟨pos + 4, rest⟩) := by
+  simp only [wU32, readU32_u32 h, Option.map_some, Win.adv]
+  simp [u32]; omega
+
+theorem wLP16_lp16 (pos : Nat) (x e rest : Bytes) (h : lp16 x = some e) :
+    wLP16 ⟨pos, e ++ rest⟩ = some (⟨pos + 2, x⟩, ⟨pos + 2 + x.length, rest⟩) := by
+  have hr := readLP16_lp16 h rest
+  simp only [lp16] at h
+  split at h
+  · simp only [Option.some.injEq] at h
+    subst h
+    simp only [wLP16, hr, Option.map_some, Win.adv]
+    simp [u16]; omega
+  · simp at h
+
+/-- a name written by the encoder (Go string `s`) is read back as its labels, from any position -/
+theorem readName_encNameStr (raw : Bytes) (s nb rest : Bytes) (pos : Nat) (hok : NameOk s)
+    (he : encNameStr s = some nb) : readName raw ⟨pos, nb ++ rest⟩ = some (toName s, ⟨pos + nb.length, rest⟩) := by
+  rw [encNameStr_toName] at he
+  cases hl : encLabels (toName s) with
+  | none => rw [hl] at he; simp at he
+  | some e =>
+    rw [hl] at he
+    simp only [Option.map_some, Option.some.injEq] at he
+    subst he
+    have := C13_name_roundtrip raw (toName s) e rest pos hok.1 hok.2 hl
+    simpa [Nat.add_assoc] using this
+
+def toQ (q : EQuestion) : Question := ⟨toName (trimDot q.name), q.typ, q.cls⟩
+def QOk (q : EQuestion) : Prop := NameOk (trimDot q.name) ∧ q.typ < 65536 ∧ q.cls < 65536
+
+theorem decodeQuestions_enc (raw : Bytes) (qs : List EQuestion) :
+    ∀ (qb rest : Bytes) (pos : Nat), encQuestions qs = some qb → (∀ q ∈ qs, QOk q) →
+      decodeQuestions raw qs.length ⟨pos, qb ++ rest⟩ = some (qs.map toQ, ⟨pos + qb.length, rest⟩) := by
+  induction qs with
+  | nil =>
+    intro qb rest pos he _
+    simp only [encQuestions, Option.some.injEq] at he
+    subst he
+    simp [decodeQuestions]
+  | cons q qs ih =>
+    intro qb rest pos he hok
+    simp only [encQuestions] at he
+    split at he
+    · rename_i a b ha hb
+      simp only [Option.some.injEq] at he
+      subst he
+      obtain ⟨hn, ht, hc⟩ := hok q (by simp)
+      simp only [encQuestion] at ha
+      cases hnb : encNameStr (trimDot q.name) with
+      | none => rw [hnb] at ha; simp at ha
+      | some nb =>
+        rw [hnb] at ha
+        simp only [Option.map_some, Option.some.injEq] at ha
+        subst ha
+        have h1 := readName_encNameStr raw (trimDot q.name) nb (u16 q.typ ++ u16 q.cls ++ b ++ rest) pos hn hnb
+        have h2 := wU16_u16 (pos + nb.length) q.typ (u16 q.cls ++ b ++ rest) ht
+        have h3 := wU16_u16 (pos + nb.length + 2) q.cls (b ++ rest) hc
+        have h4 := ih b rest (pos + nb.length + 2 + 2) hb (fun x hx => hok x (by simp [hx]))
+        simp only [List.append_assoc] at h1 h2 h3 h4 ⊢
+        simp only [List.length_cons, decodeQuestions, h1, h2, h3, h4, Option.map_some, List.map_cons, toQ]
+        simp [u16]; omega
+    · simp at he
+
+/-- what the decoder yields for encoder-side RDATA (the kinds covered by the round-trip theorem) -/
+def toRData : EData → RData
+  | .ip b => .ip b
+  | .str s => .name (splitDots s)
+  | .opts l => .opt l
+  | _ => .raw []
+
+/-- RDATA the round-trip theorem covers: addresses of the right size for A / AAAA, a well-formed
+    name for NS / CNAME / PTR, EDNS options for OPT -/
+def DataOk (typ : Nat) : EData → Prop
+  | .ip b => (typ = 1 ∧ b.length = 4) ∨ (typ = 28 ∧ b.length = 16)
+  | .str s => (typ = 2 ∨ typ = 5 ∨ typ = 12) ∧ LabelsOk (splitDots s) ∧ octets (splitDots s) ≤ 255
+  | .opts l => typ = 41 ∧ ∀ o ∈ l, o.code < 65536 ∧ o.data.length < 65536
+  | _ => False
+
+def RROk (r : ERR) : Prop :=
+  NameOk r.name ∧ r.typ < 65536 ∧ r.cls < 65536 ∧ r.ttl < 4294967296 ∧ DataOk r.typ r.data
+
+def toRR (r : ERR) : RR := ⟨toName r.name, r.typ, r.cls, r.ttl, toRData r.data⟩
+
+theorem encOpts_len (l : List Opt) : ∀ eb, encOpts l = some eb → l.length ≤ eb.length := by
+  induction l with
+  | nil => intro eb _; simp
+  | cons o os ih =>
+    intro eb he
+    simp only [encOpts] at he
+    split at he
+    · rename_i a b ha hb
+      simp only [Option.some.injEq] at he
+      subst he
+      have := ih b hb
+      simp [u16]; omega
+    · simp at he
+
+theorem optsF_enc (l : List Opt) : ∀ (eb : Bytes) (fuel : Nat), encOpts l = some eb →
+    (∀ o ∈ l, o.code < 65536 ∧ o.data.length < 65536) → l.length ≤ fuel → optsF fuel eb = some l := by
+  induction l with
+  | nil =>
+    intro eb fuel he _ _
+    simp only [encOpts, Option.some.injEq] at he
+    subst he
+    cases fuel <;> simp [optsF]
+  | cons o os ih =>
+    intro eb fuel he hok hf
+    simp only [encOpts] at he
+    split at he
+    · rename_i a b ha hb
+      simp only [Option.some.injEq] at he
+      subst he
+      obtain ⟨hc, hd⟩ := hok o (by simp)
+      cases fuel with
+      | zero => simp at hf
+      | succ k =>
+        have hne : (u16 o.code ++ a ++ b) ≠ [] := by simp [u16]
+        have h1 : readU16 (u16 o.code ++ a ++ b) = some (o.code, a ++ b) := by
+          rw [List.append_assoc]; exact readU16_u16 hc _
+        have h2 : readLP16 (a ++ b) = some (o.data, b) := readLP16_lp16 ha b
+        have h3 := ih b k hb (fun x hx => hok x (by simp [hx])) (by simp at hf; omega)
+        simp only [optsF, hne, if_false, h1, h2, h3, Option.map_some]
+    · simp at he
+
+theorem decodeRData_enc (raw : Bytes) (typ : Nat) (d : EData) (x : Bytes) (pos : Nat)
+    (hok : DataOk typ d) (he : encRData typ d = some x) :
+    decodeRData raw typ ⟨pos, x⟩ = some (toRData d) := by
+  cases d with
+  | ip b =>
+    simp only [encRData, Option.some.injEq] at he
+    subst he
+    rcases hok with ⟨rfl, hl⟩ | ⟨rfl, hl⟩ <;> simp [decodeRData, hl, toRData]
+  | str s =>
+    obtain ⟨ht, hlab, hoct⟩ := hok
+    simp only [encRData, if_pos ht] at he
+    cases hl : encLabels (splitDots s) with
+    | none => rw [hl] at he; simp at he
+    | some e =>
+      rw [hl] at he
+      simp only [Option.map_some, Option.some.injEq] at he
+      subst he
+      have := C13_name_roundtrip raw (splitDots s) e [] pos hlab hoct hl
+      simp only [List.append_nil] at this
+      have hdec : decodeRData raw typ ⟨pos, e ++ [0]⟩ = (readName raw ⟨pos, e ++ [0]⟩).map fun (n, _) => RData.name n := by
+        rcases ht with rfl | rfl | rfl <;> simp [decodeRData]
+      rw [hdec, this]
+      rfl
+  | opts l =>
+    obtain ⟨rfl, hl⟩ := hok
+    simp only [encRData] at he
+    have := optsF_enc l x x.length he hl (encOpts_len l x he)
+    simp [decodeRData, this, toRData]
+  | https _ _ _ _ _ _ _ _ => exact hok.elim
+  | other => exact hok.elim
+
+theorem decodeRR_enc (raw : Bytes) (r : ERR) (rb rest : Bytes) (pos : Nat) (hok : RROk r)
+    (he : encRR r = some rb) : decodeRR raw ⟨pos, rb ++ rest⟩ = some (toRR r, ⟨pos + rb.length, rest⟩) := by
+  obtain ⟨hn, ht, hc, htt, hd⟩ := hok
+  simp only [encRR] at he
+  split at he
+  · rename_i nb d hnb hdd
+    simp only [Option.some.injEq] at he
+    subst he
+    cases hx : encRData r.typ r.data with
+    | none => rw [hx] at hdd; simp at hdd
+    | some x =>
+      rw [hx] at hdd
+      simp only [Option.bind_some] at hdd
+      have h1 := readName_encNameStr raw r.name nb (u16 r.typ ++ u16 r.cls ++ u32 r.ttl ++ d ++ rest) pos hn hnb
+      have h2 := wU16_u16 (pos + nb.length) r.typ (u16 r.cls ++ u32 r.ttl ++ d ++ rest) ht
+      have h3 := wU16_u16 (pos + nb.length + 2) r.cls (u32 r.ttl ++ d ++ rest) hc
+      have h4 := wU32_u32 (pos + nb.length + 2 + 2) r.ttl (d ++ rest) htt
+      have h5 := wLP16_lp16 (pos + nb.length + 2 + 2 + 4) x d rest hdd
+      have h6 := decodeRData_enc raw r.typ r.data x (pos + nb.length + 2 + 2 + 4 + 2) hd hx
+      have hdl : d.length = 2 + x.length := by
+        simp only [lp16] at hdd
+        split at hdd
+        · simp only [Option.some.injEq] at hdd; subst hdd; simp [u16]; omega
+        · simp at hdd
+      simp only [List.append_assoc] at h1 h2 h3 h4 h5 ⊢
+      simp only [decodeRR, h1, h2, h3, h4, h5, h6, Option.map_some, toRR]
+      simp [u16, u32]; omega
+  · simp at he
+
+theorem decodeRRs_enc (raw : Bytes) (rs : List ERR) :
+    ∀ (b rest : Bytes) (pos : Nat), encRRs rs = some b → (∀ r ∈ rs, RROk r) →
+      decodeRRs raw rs.length ⟨pos, b ++ rest⟩ = some (rs.map toRR, ⟨pos + b.length, rest⟩) := by
+  induction rs with
+  | nil =>
+    intro b rest pos he _
+    simp only [encRRs, Option.some.injEq] at he
+    subst he
+    simp [decodeRRs]
+  | cons r rs ih =>
+    intro b rest pos he hok
+    obtain ⟨a, c, ha, hc, rfl⟩ := encRRs_cons r rs b he
+    have h1 := decodeRR_enc raw r a (c ++ rest) pos (hok r (by simp)) ha
+    have h2 := ih c rest (pos + a.length) hc (fun x hx => hok x (by simp [hx]))
+    simp only [List.append_assoc] at h1 ⊢
+    simp only [List.length_cons, decodeRRs, h1, h2, Option.map_some, List.map_cons]
+    simp; omega
+
+/-- the message a well-formed encoder-side message decodes to -/
+def toMessage (m : EMessage) : Message :=
+  { id := m.id, qr := m.qr, opcode := m.opcode, aa := m.aa, tc := m.tc, rd := m.rd, ra := m.ra, rcode := m.rcode,
+    question := m.question.map toQ, answer := m.answer.map toRR, authority := m.authority.map toRR,
+    additional := m.additional.map toRR }
+
+structure MsgOk (m : EMessage) : Prop where
+  id : m.id < 65536
+  qr : m.qr < 2
+  opcode : m.opcode < 16
+  aa : m.aa < 2
+  tc : m.tc < 2
+  rd : m.rd < 2
+  ra : m.ra < 2
+  rcode : m.rcode < 16
+  nq : m.question.length < 65536
+  nan : m.answer.length < 65536
+  nns : m.authority.length < 65536
+  nar : m.additional.length < 65536
+  qs : ∀ q ∈ m.question, QOk q
+  an : ∀ r ∈ m.answer, RROk r
+  ns : ∀ r ∈ m.authority, RROk r
+  ar : ∀ r ∈ m.additional, RROk r
+
+/-- Whole-message round trip: every message made of a header with in-range fields, any number of
+    questions and any number of A / AAAA / NS / CNAME / PTR / OPT records in the three record
+    sections, with names of well-formed labels (≤ 255 octets), that `Message.Bytes` encodes, is
+    decoded by `DecodeMessage` to exactly the same header, questions and records. (HTTPS / SVCB
+    RDATA and the record types the encoder cannot write are outside this theorem; they are covered
+    by the correspondence campaign against dnsmessage.) -/
+theorem C13_message_roundtrip (m : EMessage) (b : Bytes) (hok : MsgOk m) (he : encode m = some b) :
+    decode b = some (toMessage m) := by
+  simp only [encode] at he
+  split at he
+  · rename_i q a ns ar hq ha hns har
+    simp only [Option.some.injEq] at he
+    subst he
+    obtain ⟨f1, f2, f3, f4, f5, f6, f7, f8⟩ := C13_header_roundtrip m hok.qr hok.opcode hok.aa hok.tc hok.rd hok.ra hok.rcode
+    generalize hraw : (u16 m.id ++ u16 (flagsWord m) ++ u16 m.question.length ++ u16 m.answer.length ++
+      u16 m.authority.length ++ u16 m.additional.length ++ q ++ a ++ ns ++ ar) = raw
+    have hshape : raw = u16 m.id ++ (u16 (flagsWord m) ++ (u16 m.question.length ++ (u16 m.answer.length ++
+      (u16 m.authority.length ++ (u16 m.additional.length ++ (q ++ (a ++ (ns ++ (ar ++ []))))))))) := by
+      rw [← hraw]; simp [List.append_assoc]
+    have d1 := decodeQuestions_enc raw m.question q (a ++ (ns ++ (ar ++ []))) 12 hq hok.qs
+    have d2 := decodeRRs_enc raw m.answer a (ns ++ (ar ++ [])) (12 + q.length) ha hok.an
+    have d3 := decodeRRs_enc raw m.authority ns (ar ++ []) (12 + q.length + a.length) hns hok.ns
+    have d4 := decodeRRs_enc raw m.additional ar [] (12 + q.length + a.length + ns.length) har hok.ar
+    unfold decode
+    conv => lhs; rw [hshape]
+    simp only [readU16_u16 hok.id, readU16_u16 f8, readU16_u16 hok.nq, readU16_u16 hok.nan, readU16_u16 hok.nns,
+      readU16_u16 hok.nar]
+    rw [← hshape]
+    simp only [d1, d2, d3, d4, toMessage, f1, f2, f3, f4, f5, f6, f7]
+  · simp at he
+
+/-! non-vacuity: a query for "ex" (type HTTPS) with a padded OPT record satisfies the hypotheses -/
+
+def demoMsg : EMessage :=
+  { id := 7, rd := 1, question := [⟨[101, 120], 65, 1⟩],
+    additional := [⟨[], 41, 4096, 0, .opts [⟨12, [0, 0]⟩]⟩] }
+
+theorem demo_names : toName (trimDot [101, 120]) = [[101, 120]] := by
+  simp [toName, trimDot, splitDots]
+
+example : MsgOk demoMsg := by
+  refine ⟨by simp [demoMsg], by simp [demoMsg], by simp [demoMsg], by simp [demoMsg], by simp [demoMsg], by simp [demoMsg],
+    by simp [demoMsg], by simp [demoMsg], by simp [demoMsg], by simp [demoMsg], by simp [demoMsg], by simp [demoMsg], ?_, ?_, ?_, ?_⟩
+  · intro q hq
+    simp [demoMsg] at hq
+    subst hq
+    refine ⟨⟨?_, ?_⟩, by simp, by simp⟩
+    · rw [demo_names]; intro l hl; simp at hl; subst hl; simp
+    · rw [demo_names]; simp [octets]
+  · intro r hr; simp [demoMsg] at hr
+  · intro r hr; simp [demoMsg] at hr
+  · intro r hr
+    simp [demoMsg] at hr
+    subst hr
+    refine ⟨⟨?_, ?_⟩, by simp, by simp, by simp, ?_⟩
+    · simp [toName, LabelsOk]
+    · simp [toName, octets]
+    · simp [DataOk]
 
 end DNS
